@@ -64,6 +64,23 @@
 //!    (the timeout sweep frees `begin` slots without logging anything);
 //!  * the epilogue and the live tails of `Mode::Limits` advance past the longest configured timeout.
 //!
+//! Strengthened (round 5) by recovery calls at arbitrary points of a LIVE incarnation, without a
+//! new oracle clause (the quantifier's "every following sequence of recovery calls, timeouts and
+//! further transactions"):
+//!  * `RecoverWal`: `recover_from_wal()` on the running coordinator (not only right after a
+//!    restart): it re-installs every open transaction of the log over whatever the coordinator
+//!    holds in memory (transactions the timeout sweep dropped, phases `recover()` changed);
+//!  * `Resolve { policy }`: `get_pending_decisions()`, then for every transaction it returned the
+//!    call the policy names: `complete_abort` or the logging `abort` for Aborting ones,
+//!    `complete_commit`, or `commit` first, for Committing ones;
+//!  * a new program shape (`gen_live`): transactions are begun and voted on, then 2-5 blocks of
+//!    "clock advance (short of / past the configured timeout) - recovery call (`recover`,
+//!    `recover_from_wal`, `get_pending_decisions`, `cleanup_timeouts`) - commit / abort /
+//!    complete_* of what it returned or of drawn transactions", with clean restarts and further
+//!    transactions between the blocks; crash points as before (Enumerate / Sample / Chain),
+//!    judged by the same ledger. `recover()` logs nothing, so after it the phase in memory and
+//!    the phase in the log differ when `commit` / `abort` write their records.
+//!
 //! Oracle = ledger of completions that were logged before a restart
 //! (`commit`/`abort` returned `Ok` while the node was alive, or — for the call
 //! cut by the crash — the `TxComplete` record lies wholly in the surviving
@@ -136,6 +153,14 @@ pub enum Step {
         #[serde(default)]
         ahead: bool,
     },
+    /// `recover_from_wal` on the running coordinator (a recovery call at an arbitrary point of
+    /// a live incarnation, not only right after a restart)
+    RecoverWal,
+    /// `get_pending_decisions`, then for each transaction it returned the call `policy` names:
+    /// bit 0: Aborting -> `abort` (writes the log) instead of `complete_abort`;
+    /// bit 1: Committing -> `commit` first (refused outside Prepared), then `complete_commit`;
+    /// bit 2: only the first transaction returned, the others stay pending
+    Resolve { policy: u8 },
 }
 
 /// One operation of a thread of a `Par` step.
@@ -352,6 +377,9 @@ struct TxRec {
     /// was collecting votes at a restart: must stay absent
     forgotten: bool,
     abort_sent: bool,
+    /// `abort` completed it (Ok, logged) while its phase in memory was Aborting although the
+    /// log held no PhaseChange -> Aborting record for it (`recover` had moved it; probe bookkeeping only)
+    aborted_after_unlogged_aborting: bool,
 }
 
 fn phase_name(p: TxPhase) -> &'static str {
@@ -779,6 +807,7 @@ impl<'a> Trial<'a> {
                         swept: false,
                         forgotten: false,
                         abort_sent: false,
+                        aborted_after_unlogged_aborting: false,
                     },
                 );
             },
@@ -794,6 +823,58 @@ impl<'a> Trial<'a> {
                 ctx.event(&format!("s{i} begin t{t} failed: {msg}"));
             },
         }
+    }
+
+    /// phase in memory of every transaction of the ledger the coordinator holds
+    fn live_phases(&self, c: &DistributedTxCoordinator) -> BTreeMap<u8, TxPhase> {
+        self.recs.iter().filter_map(|(t, r)| c.get(r.id).map(|x| (*t, x.phase))).collect()
+    }
+
+    /// `commit(t)` on the live coordinator and what it means for the ledger
+    fn commit_step(&mut self, c: &DistributedTxCoordinator, t: u8, what: &str) -> Result<(), Violation> {
+        let ctx = self.ctx;
+        let Some(id) = self.recs.get(&t).map(|r| r.id) else { return Ok(()) };
+        let known = c.get(id).is_some();
+        let r = c.commit(id);
+        let alive = self.alive();
+        self.touched.push(t);
+        ctx.event(&format!("{what} commit t{t} -> {}{}", if r.is_ok() { "ok" } else { "err" }, if alive { "" } else { " (node dead)" }));
+        if r.is_ok() && alive {
+            self.on_completed(c, t, true, true, "commit")?;
+        } else if let (Err(e), true, true) = (&r, alive, known) {
+            self.on_failed_decision(t, "commit", &e.to_string());
+        }
+        Ok(())
+    }
+
+    /// `abort(t)` on the live coordinator and what it means for the ledger
+    fn abort_step(&mut self, c: &DistributedTxCoordinator, t: u8, reason: &str, what: &str) -> Result<(), Violation> {
+        let ctx = self.ctx;
+        let Some(id) = self.recs.get(&t).map(|r| r.id) else { return Ok(()) };
+        let before = c.get(id).map(|x| x.phase);
+        // the phase in memory is Aborting although the log holds no such record (`recover` moved it)
+        let unlogged_aborting = before == Some(TxPhase::Aborting) && !Self::logged_about(&Self::read_log(&self.wal), id).1;
+        let r = c.abort(id, reason);
+        let alive = self.alive();
+        self.touched.push(t);
+        ctx.event(&format!("{what} abort t{t} -> {}{}", if r.is_ok() { "ok" } else { "err" }, if alive { "" } else { " (node dead)" }));
+        if r.is_ok() && alive {
+            if before == Some(TxPhase::Committing) && self.recs[&t].outcome.is_none() {
+                ctx.probe("abort_accepted_on_committing_tx");
+                self.observe("observation(decision logged, completion not logged: outside C13's clauses): abort() succeeded on a recovered transaction in phase Committing and logged it as aborted");
+            }
+            if unlogged_aborting && self.recs[&t].outcome.is_none() {
+                ctx.probe("abort_of_tx_in_unlogged_aborting_phase");
+                if self.recs[&t].prepared_logged {
+                    ctx.probe("abort_of_prepared_tx_moved_to_aborting_by_recover");
+                    self.recs.get_mut(&t).unwrap().aborted_after_unlogged_aborting = true;
+                }
+            }
+            self.on_completed(c, t, false, true, "abort")?;
+        } else if let (Err(e), true, true) = (&r, alive, before.is_some()) {
+            self.on_failed_decision(t, "abort", &e.to_string());
+        }
+        Ok(())
     }
 
     fn exec(&mut self, c: &Arc<DistributedTxCoordinator>, step: &Step, i: usize) -> Result<(), Violation> {
@@ -931,36 +1012,8 @@ impl<'a> Trial<'a> {
                     },
                 }
             },
-            Step::Commit { t } => {
-                let Some(id) = self.recs.get(t).map(|r| r.id) else { return Ok(()) };
-                let known = c.get(id).is_some();
-                let r = c.commit(id);
-                let alive = self.alive();
-                self.touched.push(*t);
-                ctx.event(&format!("s{i} commit t{t} -> {}{}", if r.is_ok() { "ok" } else { "err" }, if alive { "" } else { " (node dead)" }));
-                if r.is_ok() && alive {
-                    self.on_completed(c, *t, true, true, "commit")?;
-                } else if let (Err(e), true, true) = (&r, alive, known) {
-                    self.on_failed_decision(*t, "commit", &e.to_string());
-                }
-            },
-            Step::Abort { t } => {
-                let Some(id) = self.recs.get(t).map(|r| r.id) else { return Ok(()) };
-                let before = c.get(id).map(|x| x.phase);
-                let r = c.abort(id, "scripted abort");
-                let alive = self.alive();
-                self.touched.push(*t);
-                ctx.event(&format!("s{i} abort t{t} -> {}{}", if r.is_ok() { "ok" } else { "err" }, if alive { "" } else { " (node dead)" }));
-                if r.is_ok() && alive {
-                    if before == Some(TxPhase::Committing) && self.recs[t].outcome.is_none() {
-                        ctx.probe("abort_accepted_on_committing_tx");
-                        self.observe("observation(decision logged, completion not logged: outside C13's clauses): abort() succeeded on a recovered transaction in phase Committing and logged it as aborted");
-                    }
-                    self.on_completed(c, *t, false, true, "abort")?;
-                } else if let (Err(e), true, true) = (&r, alive, before.is_some()) {
-                    self.on_failed_decision(*t, "abort", &e.to_string());
-                }
-            },
+            Step::Commit { t } => self.commit_step(c, *t, &format!("s{i}"))?,
+            Step::Abort { t } => self.abort_step(c, *t, "scripted abort", &format!("s{i}"))?,
             Step::Advance { ms } => {
                 ctx.advance_ms(u64::from(*ms));
                 ctx.event(&format!("s{i} advance {ms}ms"));
@@ -1007,11 +1060,101 @@ impl<'a> Trial<'a> {
                 }
             },
             Step::Recover => {
+                let before = self.live_phases(c);
                 let st = c.recover();
                 ctx.event(&format!(
                     "s{i} recover() prepare={} commit={} abort={} timed_out={} completed={}",
                     st.pending_prepare, st.pending_commit, st.pending_abort, st.timed_out, st.completed
                 ));
+                // `recover` logs nothing: from here on the phase in memory and the phase in the
+                // log differ for the transactions it moved (probe bookkeeping only)
+                ctx.probe("live_recover_call");
+                for (t, p0) in &before {
+                    let p1 = c.get(self.recs[t].id).map(|x| x.phase);
+                    match (p0, p1) {
+                        (TxPhase::Prepared, Some(TxPhase::Aborting)) => {
+                            ctx.probe("live_recover_moved_prepared_to_aborting_after_timeout");
+                            if self.inc > 0 {
+                                ctx.probe("live_recover_moved_restored_prepared_to_aborting_after_timeout");
+                            }
+                        },
+                        (TxPhase::Prepared, Some(TxPhase::Committing)) => ctx.probe("live_recover_moved_prepared_to_committing"),
+                        (TxPhase::Preparing, Some(TxPhase::Aborting)) => ctx.probe("live_recover_moved_collecting_to_aborting_after_timeout"),
+                        _ => {},
+                    }
+                }
+            },
+            Step::RecoverWal => {
+                let before = self.live_phases(c);
+                let r = {
+                    // restored transactions are built with a generated id (overwritten by the logged one)
+                    let _g = id_shared();
+                    c.recover_from_wal()
+                };
+                if !self.alive() {
+                    ctx.event(&format!("s{i} live recover_from_wal (node dead)"));
+                    return Ok(());
+                }
+                // "recover_from_wal succeeds on every log the coordinator wrote itself"
+                let st = r.map_err(|e| viol("recover-failed", format!("s{i}: recover_from_wal on the running coordinator (its own log) failed: {e}")))?;
+                ctx.probe("live_recover_from_wal");
+                if self.inc > 0 {
+                    ctx.probe("live_recover_from_wal_in_later_incarnation");
+                }
+                let mut pend: Vec<String> = Vec::new();
+                let slots: Vec<u8> = self.recs.keys().copied().collect();
+                for t in slots {
+                    let (id, volatile) = (self.recs[&t].id, self.recs[&t].volatile);
+                    let p1 = c.get(id).map(|x| x.phase);
+                    if let Some(p) = p1 {
+                        pend.push(format!("t{t}:{}", phase_name(p)));
+                    }
+                    match (before.get(&t), p1) {
+                        (None, Some(_)) => {
+                            // dropped from memory without a log record (timeout sweep, complete_*): back from the log
+                            ctx.probe("live_recover_from_wal_brought_back_dropped_tx");
+                            if volatile {
+                                self.observe("observation(completion not logged, outside C13's clauses): recover_from_wal on the running coordinator brought back a transaction that complete_commit/complete_abort/cleanup_timeouts had finished in memory");
+                            }
+                        },
+                        (Some(p0), Some(p)) if *p0 != p => ctx.probe("live_recover_from_wal_reset_phase_changed_in_memory"),
+                        _ => {},
+                    }
+                }
+                ctx.event(&format!(
+                    "s{i} live recover_from_wal prepare={} commit={} abort={} orphan_locks={}; pending={pend:?}",
+                    st.pending_prepare, st.pending_commit, st.pending_abort, st.lock_releases_recovered
+                ));
+            },
+            Step::Resolve { policy } => {
+                let mut ds: Vec<(u8, TxPhase)> =
+                    c.get_pending_decisions().into_iter().filter_map(|(id, p)| self.slot_of(id).map(|t| (t, p))).collect();
+                ds.sort_by_key(|d| d.0);
+                ctx.event(&format!(
+                    "s{i} resolve(policy {policy}) {:?}",
+                    ds.iter().map(|(t, p)| format!("t{t}:{}", phase_name(*p))).collect::<Vec<_>>()
+                ));
+                if policy & 4 != 0 {
+                    ds.truncate(1);
+                }
+                for (t, p) in ds {
+                    if !self.alive() {
+                        break;
+                    }
+                    match p {
+                        TxPhase::Aborting if policy & 1 != 0 => {
+                            ctx.probe("pending_abort_decision_resolved_by_abort");
+                            self.abort_step(c, t, "pending decision", &format!("s{i} resolve"))?;
+                        },
+                        TxPhase::Committing if policy & 2 != 0 => {
+                            self.commit_step(c, t, &format!("s{i} resolve"))?;
+                            if self.alive() && c.get(self.recs[&t].id).map(|x| x.phase) == Some(TxPhase::Committing) {
+                                self.drive(c, t, TxPhase::Committing, &format!("s{i} resolve"))?;
+                            }
+                        },
+                        _ => self.drive(c, t, p, &format!("s{i} resolve"))?,
+                    }
+                }
             },
             Step::Restart => {},
         }
@@ -1625,6 +1768,9 @@ impl<'a> Trial<'a> {
             let live_phase = live.as_ref().map(|x| x.phase);
             if let Some((committed, inc0)) = rec.outcome {
                 self.ctx.probe("completed_tx_checked_after_restart");
+                if rec.aborted_after_unlogged_aborting && inc0 < inc {
+                    self.ctx.probe("abort_logged_after_live_recover_checked_after_restart");
+                }
                 if committed {
                     // "a transaction completed as committed is never afterwards aborted or timed out"
                     if matches!(live_phase, Some(TxPhase::Aborting | TxPhase::Aborted)) {
@@ -1862,6 +2008,14 @@ fn step_kind(s: &Step) -> &'static str {
         Step::Restart => "restart",
         Step::BeginWide { .. } => "begin-wide",
         Step::Par { .. } => "par",
+        Step::RecoverWal => "recover-wal",
+        Step::Resolve { policy } => {
+            if policy & 1 != 0 {
+                "resolve-abort"
+            } else {
+                "resolve"
+            }
+        },
     }
 }
 
@@ -2291,6 +2445,124 @@ fn gen_rounds(rng: &mut Rng) -> Case {
     Case { steps, recover_after_restart, mode, handle_numbering: u8::from(rng.chance(1, 2)), log_limit: None, configs }
 }
 
+/// Recovery calls at arbitrary points of a live incarnation (the quantifier's "every following
+/// sequence of recovery calls, timeouts and further transactions"): 1-3 transactions are begun
+/// and voted on (mostly all YES, so that Prepared is logged), now and then one is decided; then
+/// 2-5 blocks of: a clock advance (short of, exactly at, or past the configured / the restored
+/// transactions' timeout) or none; one recovery call (`recover`, `recover_from_wal`,
+/// `get_pending_decisions` + the calls a policy names, `cleanup_timeouts`); then commit / abort
+/// of what it returned (`Resolve`, `Decide`, `DriveAll`) or of drawn transactions, or nothing.
+/// Between the blocks: clean restarts, a further transaction, late votes.
+fn gen_live(rng: &mut Rng) -> Case {
+    let configs: Vec<CoordCfg> = if rng.chance(1, 2) {
+        Vec::new()
+    } else {
+        let mut v = gen_configs(rng);
+        for c in &mut v {
+            // the limit is the business of the configuration shape
+            c.max_concurrent = c.max_concurrent.max(4);
+        }
+        v
+    };
+    let pt = configs.first().map(|c| c.prepare_timeout_ms).unwrap_or(5000);
+    let ntx = rng.range(1, 3) as u8;
+    let mut steps: Vec<Step> = Vec::new();
+    let begin = |rng: &mut Rng, steps: &mut Vec<Step>, t: u8| {
+        let n = rng.range(1, 3) as u8;
+        let kb = if rng.chance(3, 4) { (2 * t) % 6 } else { rng.below(6) as u8 };
+        steps.push(Step::Begin { t, n, kb });
+        let shape = rng.below(8);
+        for sh in 0..n {
+            let v = match shape {
+                0 if sh == n - 1 => V::No,
+                1 if sh == n - 1 => continue,
+                _ => V::Yes,
+            };
+            steps.push(Step::Vote { t, s: sh, v });
+        }
+    };
+    for t in 0..ntx {
+        begin(rng, &mut steps, t);
+        match rng.below(12) {
+            0 => steps.push(Step::Commit { t }),
+            1 => steps.push(Step::Abort { t }),
+            _ => {},
+        }
+    }
+    let mut next_slot = ntx;
+    let blocks = rng.range(2, 5);
+    for b in 0..blocks {
+        // the clock
+        let past = *rng.pick(&[pt + 1, pt + 1000, pt.max(5000) + 1, pt.max(5000) + 1000]);
+        match rng.below(8) {
+            0..=3 => steps.push(Step::Advance { ms: past.min(3_600_000) as u32 }),
+            4 => steps.push(Step::Advance { ms: pt.min(3_600_000) as u32 }),
+            5 => steps.push(Step::Advance { ms: (pt / 2).min(3_600_000) as u32 }),
+            _ => {},
+        }
+        // the recovery call
+        match rng.below(10) {
+            0..=3 => steps.push(Step::Recover),
+            4..=5 => steps.push(Step::RecoverWal),
+            6 => {
+                steps.push(Step::RecoverWal);
+                steps.push(Step::Recover);
+            },
+            7 => {
+                steps.push(Step::Recover);
+                steps.push(Step::RecoverWal);
+            },
+            8 => steps.push(Step::Sweep),
+            _ => {},
+        }
+        // commit / abort of what it returned, or of drawn transactions
+        match rng.below(10) {
+            0..=3 => steps.push(Step::Resolve { policy: *rng.pick(&[1u8, 1, 1, 3, 3, 5, 2, 0]) }),
+            4 => steps.push(Step::Decide),
+            5 => steps.push(Step::DriveAll),
+            6..=7 => {
+                for _ in 0..rng.range(1, 2) {
+                    let t = rng.below(u64::from(next_slot)) as u8;
+                    steps.push(if rng.chance(1, 2) { Step::Abort { t } } else { Step::Commit { t } });
+                }
+            },
+            8 => {
+                let t = rng.below(u64::from(next_slot)) as u8;
+                steps.push(Step::Vote { t, s: rng.below(3) as u8, v: *rng.pick(&[V::Yes, V::No, V::Resend, V::Flip]) });
+                steps.push(Step::Resolve { policy: rng.below(8) as u8 });
+            },
+            _ => {},
+        }
+        if b + 1 == blocks {
+            break;
+        }
+        // between the blocks
+        match rng.below(10) {
+            0..=2 => steps.push(Step::Restart),
+            3 => {
+                if next_slot < 5 {
+                    begin(rng, &mut steps, next_slot);
+                    next_slot += 1;
+                }
+            },
+            4 => steps.push(Step::Aborts),
+            5 => {
+                // a second decision on a drawn transaction
+                let t = rng.below(u64::from(next_slot)) as u8;
+                steps.push(if rng.chance(1, 2) { Step::Commit { t } } else { Step::Abort { t } });
+            },
+            _ => {},
+        }
+    }
+    let recover_after_restart = rng.chance(1, 4);
+    let mode = match rng.below(8) {
+        0..=3 => Mode::Enumerate,
+        4..=5 => Mode::Sample { seed: rng.next_u64(), points: rng.range(40, 120) as u32 },
+        _ => gen_chain(rng, steps.len()),
+    };
+    Case { steps, recover_after_restart, mode, handle_numbering: u8::from(rng.chance(1, 2)), log_limit: None, configs }
+}
+
 /// `Mode::Limits`: see there.
 fn run_limits(case: &Case, ctx: &Arc<RunCtx>, seed: u64, points: u32, out: &mut RunOut) {
     // reference execution without a limit: the size of the log before and after every record
@@ -2635,6 +2907,7 @@ impl Scenario for C13 {
             1 | 5 => gen_par(rng),
             7 => gen_limited(rng, (index / 8) % 4 == 3),
             6 => gen_rounds(rng),
+            4 => gen_live(rng),
             _ => {
                 // the round-1 program; every fourth of them under a drawn configuration
                 let mut case = gen_classic(rng);
@@ -2786,8 +3059,17 @@ impl Scenario for C13 {
                     c.steps[i] = Step::Begin { t: *t, n: 1, kb: 0 };
                     v.push(c);
                 },
-                Step::DriveAll | Step::Decide | Step::Recover | Step::Aborts => {
+                Step::DriveAll | Step::Decide | Step::Recover | Step::Aborts | Step::RecoverWal => {
                     // already covered by drop_chunks
+                },
+                Step::Resolve { policy } if *policy > 1 => {
+                    for pol in [policy & 1, policy & 3] {
+                        if pol != *policy {
+                            let mut c = case.clone();
+                            c.steps[i] = Step::Resolve { policy: pol };
+                            v.push(c);
+                        }
+                    }
                 },
                 Step::BeginWide { t, n, base, kb } if *n > 1 => {
                     let mut c = case.clone();
@@ -2885,14 +3167,26 @@ impl Scenario for C13 {
             "restart_with_more_open_txs_in_log_than_max_concurrent",
             "tx_timed_out_under_configured_timeout",
             "configuration_changed_at_restart",
+            // round 5
+            "live_recover_moved_prepared_to_aborting_after_timeout",
+            "live_recover_moved_restored_prepared_to_aborting_after_timeout",
+            "live_recover_moved_prepared_to_committing",
+            "live_recover_moved_collecting_to_aborting_after_timeout",
+            "abort_of_prepared_tx_moved_to_aborting_by_recover",
+            "abort_logged_after_live_recover_checked_after_restart",
+            "pending_abort_decision_resolved_by_abort",
+            "live_recover_from_wal",
+            "live_recover_from_wal_in_later_incarnation",
+            "live_recover_from_wal_brought_back_dropped_tx",
+            "live_recover_from_wal_reset_phase_changed_in_memory",
         ]
     }
     fn rule(&self) -> String {
-        "A case is a generated program followed by a fixed epilogue (restart; drive every recovered transaction to completion; restart; sweep after every timeout; a new transaction on the same keys; restart). Five shapes, chosen by run index: (3/8) the round-1 program: 1-4 transactions of 1-3 participants with overlapping keys; begin, votes yes/no/resent/flipped/late, commit, abort, clock advances, timeout sweeps, abort broadcasts, pending-decision completion, recover(), clean restarts; (1/8) the same with one transaction of 8 300 - 262 000 participants begun in the middle (TxBegin / AbortIntent records of 64 KiB - 1 MiB; every 12th of these has the 1 MiB record); (2/8) 1-3 transactions whose participants' votes and, now and then, commit and/or abort are issued by 2-4 scheduled threads (one block for all or one per transaction; participants prepare inside the threads or one after the other ahead of them), followed by decisions, clean restarts or a commit/abort race after a restart; (1/8) the round-1 program on a log with a hard size limit without rotation (WalConfig max_size_bytes, auto_rotate=false): three of four of these in Limits mode, one of four with a drawn limit of 20 bytes up to about the size of the program's records, in force for the first 1 or 2 incarnations or always, together with 1-3 crashes (Chain mode); (1/8) the configuration shape: 2-3 rounds of as many transactions (1-2 participants, mostly disjoint keys) as the coordinator's max_concurrent admits and now and then one more (refused), mostly all-YES votes, a few decisions, and between the rounds one of: every timeout passes + cleanup_timeouts (+ abort broadcast), clean restart, sweep then restart, restart then sweep, pending decisions / drive, advance exactly to the timeout + sweep, advance + recover() + decide, nothing; up to 6 transactions; Sample (40-120 crash points), Enumerate or Chain mode. The coordinator's configuration is part of the case (every field of DistributedTxConfig: max_concurrent 0-5 or 100, prepare_timeout_ms 0 - 60 000, commit_timeout_ms, orthogonal_threshold -1 - 2, optimistic_locking, tx_queue_soft_limit_pct), the same for every incarnation or (3 of 8) changed at the first restart (default -> drawn, drawn -> drawn, drawn -> default): always in the configuration shape, in every fourth round-1 program, default elsewhere; the epilogue's and the live tails' clock advance is past the longest configured timeout. In half of the cases the YES votes carry participant-numbered lock handles that start again from 1 in every incarnation. Enumerate mode (round-1 shape): every mutating syscall boundary of program+epilogue (un-synced log bytes kept, dropped, or cut at a pseudo-random length) and byte offsets inside every log write (all offsets of records up to 48 bytes, ~25 sampled ones of longer records) are each taken as a power-loss crash point, each followed by restart from the log, the property checks, the rest of the program and the epilogue (three more restarts). Sample mode (wide and thread shapes): a seeded subset (10-40) of the same crash points, and, for every thread block, the schedules with preemption bound 1 (each thread starts first; one switch at schedule point j, for every j; at most 64 per case) without a crash. Limits mode: a reference execution without limit gives the log size before every record of program+epilogue; for every record, the limit is set so that this record is the first one refused, with no room left and with one byte less than it needs (shorter records still fit), each followed by (a) the epilogue at once, (b) advance 6 s + cleanup_timeouts + process_pending_aborts on the live coordinator and then the epilogue, (c) abort of every transaction on the live coordinator and then the epilogue; the limit stays for ever, or is lifted at the next restart, or at the one after it (rotating); no crash. Chain mode: 1-3 seeded crashes in one execution, the later ones shortly after a restart. inner_enumerated_points counts all these executions. Non-trivial: at least one crash fired (Chain) or the program issued >=2 mutating syscalls (Enumerate, Sample, Limits). Distinct: hash of (recover flag, mode, handle numbering, lives of the log limit, max_concurrent and prepare timeout of the configurations, sequence of step kinds and crash sites).".into()
+        "A case is a generated program followed by a fixed epilogue (restart; drive every recovered transaction to completion; restart; sweep after every timeout; a new transaction on the same keys; restart). Six shapes, chosen by run index: (2/8) the round-1 program: 1-4 transactions of 1-3 participants with overlapping keys; begin, votes yes/no/resent/flipped/late, commit, abort, clock advances, timeout sweeps, abort broadcasts, pending-decision completion, recover(), clean restarts; (1/8) the same with one transaction of 8 300 - 262 000 participants begun in the middle (TxBegin / AbortIntent records of 64 KiB - 1 MiB; every 12th of these has the 1 MiB record); (2/8) 1-3 transactions whose participants' votes and, now and then, commit and/or abort are issued by 2-4 scheduled threads (one block for all or one per transaction; participants prepare inside the threads or one after the other ahead of them), followed by decisions, clean restarts or a commit/abort race after a restart; (1/8) the round-1 program on a log with a hard size limit without rotation (WalConfig max_size_bytes, auto_rotate=false): three of four of these in Limits mode, one of four with a drawn limit of 20 bytes up to about the size of the program's records, in force for the first 1 or 2 incarnations or always, together with 1-3 crashes (Chain mode); (1/8) the configuration shape: 2-3 rounds of as many transactions (1-2 participants, mostly disjoint keys) as the coordinator's max_concurrent admits and now and then one more (refused), mostly all-YES votes, a few decisions, and between the rounds one of: every timeout passes + cleanup_timeouts (+ abort broadcast), clean restart, sweep then restart, restart then sweep, pending decisions / drive, advance exactly to the timeout + sweep, advance + recover() + decide, nothing; up to 6 transactions; Sample (40-120 crash points), Enumerate or Chain mode; (1/8) the live-recovery shape: 1-3 transactions of 1-3 participants (mostly all-YES votes, so that Prepared is logged; now and then decided at once), then 2-5 blocks of [no clock advance, or one of half the timeout / exactly the timeout / past the configured timeout / past the 5 s timeout of restored transactions] + [one recovery call on the running coordinator: recover(), recover_from_wal(), both in either order, cleanup_timeouts, or none] + [what follows it: Resolve = get_pending_decisions and for every (or only the first) transaction it returned complete_abort or the logging abort() for Aborting ones and complete_commit or commit()-then-complete_commit for Committing ones; Decide; DriveAll; commit/abort of 1-2 drawn transactions; a late vote and Resolve; nothing], and between the blocks a clean restart (3/10), a further transaction, an abort broadcast, a second decision on a drawn transaction, or nothing; default configuration (1/2) or a drawn one with max_concurrent >= 4; Enumerate (1/2), Sample (40-120 points) or Chain mode. The coordinator's configuration is part of the case (every field of DistributedTxConfig: max_concurrent 0-5 or 100, prepare_timeout_ms 0 - 60 000, commit_timeout_ms, orthogonal_threshold -1 - 2, optimistic_locking, tx_queue_soft_limit_pct), the same for every incarnation or (3 of 8) changed at the first restart (default -> drawn, drawn -> drawn, drawn -> default): always in the configuration shape, in half of the live-recovery programs, in every fourth round-1 program, default elsewhere; the epilogue's and the live tails' clock advance is past the longest configured timeout. In half of the cases the YES votes carry participant-numbered lock handles that start again from 1 in every incarnation. Enumerate mode (round-1 shape): every mutating syscall boundary of program+epilogue (un-synced log bytes kept, dropped, or cut at a pseudo-random length) and byte offsets inside every log write (all offsets of records up to 48 bytes, ~25 sampled ones of longer records) are each taken as a power-loss crash point, each followed by restart from the log, the property checks, the rest of the program and the epilogue (three more restarts). Sample mode (wide and thread shapes): a seeded subset (10-40) of the same crash points, and, for every thread block, the schedules with preemption bound 1 (each thread starts first; one switch at schedule point j, for every j; at most 64 per case) without a crash. Limits mode: a reference execution without limit gives the log size before every record of program+epilogue; for every record, the limit is set so that this record is the first one refused, with no room left and with one byte less than it needs (shorter records still fit), each followed by (a) the epilogue at once, (b) advance 6 s + cleanup_timeouts + process_pending_aborts on the live coordinator and then the epilogue, (c) abort of every transaction on the live coordinator and then the epilogue; the limit stays for ever, or is lifted at the next restart, or at the one after it (rotating); no crash. Chain mode: 1-3 seeded crashes in one execution, the later ones shortly after a restart. inner_enumerated_points counts all these executions. Non-trivial: at least one crash fired (Chain) or the program issued >=2 mutating syscalls (Enumerate, Sample, Limits). Distinct: hash of (recover flag, mode, handle numbering, lives of the log limit, max_concurrent and prepare timeout of the configurations, sequence of step kinds and crash sites).".into()
     }
     fn components(&self) -> Value {
         json!({
-            "real": ["tensor_chain::DistributedTxCoordinator (new(.., DistributedTxConfig { every field from the case }), begin, handle_prepare, record_vote, commit, abort, cleanup_timeouts, process_pending_aborts, recover_from_wal, recover, get_pending_decisions, complete_commit, complete_abort, lock_manager)", "tensor_chain::TxWal (open, open_with_config(WalConfig { max_size_bytes: <case>, auto_rotate: false, ..default }) in the incarnations the case names, append, replay), TxRecoveryState", "LockManager / WaitForGraph", "std::fs / BufWriter", "tensor_chain::sync_compat locks (their acquisitions are the schedule points of the thread blocks)"],
+            "real": ["tensor_chain::DistributedTxCoordinator (new(.., DistributedTxConfig { every field from the case }), begin, handle_prepare, record_vote, commit, abort, cleanup_timeouts, process_pending_aborts, recover_from_wal (after every restart and, as a step, on the running coordinator), recover, get_pending_decisions, complete_commit, complete_abort, lock_manager)", "tensor_chain::TxWal (open, open_with_config(WalConfig { max_size_bytes: <case>, auto_rotate: false, ..default }) in the incarnations the case names, append, replay), TxRecoveryState", "LockManager / WaitForGraph", "std::fs / BufWriter", "tensor_chain::sync_compat locks (their acquisitions are the schedule points of the thread blocks)"],
             "simulated": ["disk: libc write/fsync/open/ftruncate interposed, files on tmpfs with durable-watermark bookkeeping; crash at a chosen syscall/byte; power loss cuts the log to a length between fsynced and written", "clock (SystemTime/Instant) advanced by the step list", "network: SimTransport collects the abort broadcasts", "threads of a Par step: real OS threads run one at a time by the baton scheduler, switched only at tensor_chain lock acquisitions and between operations, the picks are part of the case"],
             "stub": ["participants: votes are scripted by the step list (a first YES takes its lock through the coordinator's real handle_prepare; with handle_numbering=1 the vote names that lock by the participant's own number, 1, 2, ... in every incarnation)"]
         })
@@ -2908,6 +3202,7 @@ impl Scenario for C13 {
             "a reversal (timeout or abort after a logged commit, commit after a logged abort) by the incarnation that itself logged the completion is not judged at once (the text speaks of a restarted coordinator) but at the next completed restart from that log, whatever the restarted coordinator then does".into(),
             "'locks of completed transactions are released' after a restart is decided on recovery's report: the restarted coordinator's lock manager is new, so a lock that a completed transaction never gave back exists only as log records; it counts as released when the log holds a LockRelease record of that transaction for it or AllLocksReleased for the transaction, or when TxRecoveryState (what recover_from_wal acts on) lists it as orphaned for that transaction. A lock is identified by (transaction, handle), never by the handle value alone".into(),
             "the coordinator's configuration is an input like the program: any DistributedTxConfig may be given to any incarnation (an operator may restart the coordinator with another configuration); a begin() refused because max_concurrent transactions are pending is un-acknowledged (no transaction exists, nothing is claimed about it); the clauses about restored transactions are not conditioned on the configuration (the text has no such condition)".into(),
+            "recovery calls are legal at any point of a live incarnation (the quantifier's 'every following sequence of recovery calls'): recover(), recover_from_wal(), get_pending_decisions() and complete_commit/complete_abort, commit and abort of whatever they report are issued on the running coordinator like any other step; they are judged by the ledger alone (no clause is added for them): recover() and complete_* write no log record, so what they do in memory is neither a logged completion nor a reversal; a transaction that recover_from_wal brings back on the running coordinator after it was finished in memory without a log record is an observation".into(),
             "in a thread block every participant's messages come from one thread (two different answers of one participant never race each other; they do follow each other, as in round 1); the ledger is updated in the order in which the coordinator's calls returned".into(),
         ]
     }
